@@ -75,7 +75,7 @@ def write_wq_cfg(path, maxops, maxnotes, menu, hyg=False):
     with open(path, "w") as f:
         f.write("SPECIFICATION Spec\nCONSTANTS\n  HLo = 0\n  HHi = 13\n  PruningDepth = 4\n  VerifyLookahead = 2\n"
                 "  ShardLeaves = 2\n  Birthday = 2\n  MaxTop = 11\n  MaxOps = %d\n  MaxNotes = %d\n  Menu = %d\n  Hyg = %s\n"
-                "VIEW View\nINVARIANTS %s\nPROPERTIES ScanCovers TipMonotone PruneLaw\nCHECK_DEADLOCK FALSE\n"
+                "VIEW View\nINVARIANTS %s\nPROPERTIES ScanCovers TipMonotone PruneLaw RewindLaw\nCHECK_DEADLOCK FALSE\n"
                 % (maxops, maxnotes, menu, "TRUE" if hyg else "FALSE", WQ_INVARIANTS))
 
 
@@ -114,6 +114,16 @@ def wq_stats(res, st):
             st["rescan"] = st.get("rescan", 0) + 1
             if "over-scanned" in t:
                 st["rescan_over_scanned"] = st.get("rescan_over_scanned", 0) + 1
+        elif t.startswith('"rewind"'):
+            # (printed once per candidate settling height: counted once per event)
+            f = [x.strip().strip('"') for x in t.split(",")]
+            seen = st.setdefault("_rewind_events", set())
+            if f[1] in seen:
+                continue
+            seen.add(f[1])
+            for k in f[2:]:
+                if k != "-":
+                    st["rewind_" + k] = st.get("rewind_" + k, 0) + 1
         elif t.startswith('"apart"'):
             st["apart"] = st.get("apart", 0) + 1
         elif t.startswith('"scan"'):
@@ -301,7 +311,8 @@ def run(ctx):
     need = {"scan_extents_differ": 8, "scan_needs_S": 2, "scan_needs_O": 3, "tip_verify": 4, "tip_verify-empty": 1,
             "tip_chaintip": 10, "tip_historic": 10, "tip_historic+shard": 1, "tip_shard_above_scanned": 1,
             "prune_none": 5, "prune_some": 20, "prune_deleted": 5, "prune_demoted": 5, "prune_island": 1,
-            "rescan": 10, "rescan_over_scanned": 3}
+            "rescan": 10, "rescan_over_scanned": 3, "rewind_truncated": 3, "rewind_no-truncation": 2,
+            "rewind_blocks-removed": 2, "rewind_rescans-kept-blocks": 1}
     if not ctx.quick():
         need.update({"scan_needs_I": 2, "scan_extents_differ": 30, "tip_shard_above_scanned": 3})
     if not ctx.violations:
@@ -309,6 +320,7 @@ def run(ctx):
         if short:
             raise lib.ToolError("vacuity: wallet-level insertion rules not exercised (seen, needed): %s" % short)
     ctx.extra["wallet_queue_stats"] = qstats
+    wqstats.pop("_rewind_events", None)
     ctx.extra["wallet_queue_priority_stats"] = wqstats
     ctx.extra["layer_b_shape"] = {"agree": shape_agree, "differs": shape_differs,
                                   "note": "tree shape vs transcription; informational only, never a violation"}
